@@ -36,7 +36,8 @@ METHODS = {
         ('tracer_diffusivity', [((), {}), ((), {'dimensions': 1}), ((), {'dimensions': 2}), ((), {'dimensions': 3})]),
         ('tracer_diffusivity_center_of_mass', [((), {}), ((), {'dimensions': 1}), ((), {'dimensions': 2})]),
         ('haven_ratio', [((), {}), ((), {'dimensions': 2})]),
-        ('tracer_conductivity', [((), {'z_ion': 1}), ((), {'z_ion': 2}), ((), {'z_ion': 1, 'dimensions': 2}), ((), {'dimensions': 1, 'z_ion': 2})]),
+        ('tracer_conductivity', [((), {'z_ion': 1}), ((), {'z_ion': 2}), ((), {'z_ion': 1, 'dimensions': 2}), ((), {'dimensions': 1, 'z_ion': 2}),
+                                 ((), {'z_ion': 2, 'dimensions': 1}), ((), {'dimensions': 2, 'z_ion': 1}), ((), {'z_ion': 3, 'dimensions': 3})]),
         ('attempt_frequency', [((), {})]),
         ('vibration_amplitude', [((), {})]),
         ('amplitudes', [((), {})]),
@@ -53,7 +54,8 @@ METHODS = {
         ('activation_energies', [((2,), {}), ((3,), {}), ((), {'n_parts': 2}), ((60,), {})]),
         ('counter', [((), {})]),
         ('_counter', [((), {})]),
-        ('to_graph', [((), {}), ((None, 0.5), {}), ((0.1,), {}), ((), {'max_e_act': 0.3}), ((), {'min_e_act': 0.2, 'max_e_act': 0.6})]),
+        ('to_graph', [((), {}), ((None, 0.5), {}), ((0.1,), {}), ((), {'max_e_act': 0.3}), ((), {'min_e_act': 0.2, 'max_e_act': 0.6}),
+                      ((), {'min_e_act': 0.3}), ((0.3,), {}), ((), {'max_e_act': 0.1}), ((), {'max_e_act': 0.2, 'min_e_act': 0.6}), ((0.6, 0.2), {})]),
         ('rates', [((2,), {}), ((3,), {}), ((), {'n_parts': 2}), ((60,), {})]),
         ('n_solo_jumps', [('property', {})]),
         ('solo_fraction', [('property', {})]),
